@@ -124,9 +124,10 @@ pub(crate) fn mk_incoming(data: Vec<u8>, offset: usize, flags: u16) -> DnsIncomi
         offset,
         data,
         questions: Vec::new(),
-        answers: Vec::new(),
-        authorities: Vec::new(),
-        additional: Vec::new(),
+        // pre-sized: Kani 0.68 mis-models the first push into a zero-capacity Vec<Box<dyn DnsRecordExt>>
+        answers: Vec::with_capacity(4),
+        authorities: Vec::with_capacity(4),
+        additional: Vec::with_capacity(4),
         id: 0,
         flags,
         num_questions: 0,
@@ -272,10 +273,11 @@ fn vec_eq(a: &[u8], b: &[u8]) -> bool {
 // @bound all TTL pairs (u32 x u32), all classes, A and AAAA with every address (u32 / u128) on both sides; owner from a 2-name list; both records carry the same interface id
 // @oracle same := owner, type, class(without flush bit), address equal
 // @outside records learned on different interfaces
+// @unwind 18 (memcmp over 16 address bytes)
 // @stubs clock(overlay)
 // @covers suppressed, same_but_not_suppressed, different
 #[kani::proof]
-#[kani::unwind(10)]
+#[kani::unwind(18)]
 fn c10_suppressed_addr() {
     let (ia, ib) = (any_name_idx(), any_name_idx());
     let (va, vb): (bool, bool) = (kani::any(), kani::any());
@@ -371,8 +373,8 @@ fn c10_suppressed_cross() {
 // @property C10
 // @tier quick
 // @functions DnsOutgoing::add_answer, DnsRecordExt::suppressed_by, DnsOutgoing::add_answer_at_time
-// @bound incoming query with 0..=2 known answers (SRV, symbolic TTL and port, fixed owner/class); one candidate SRV answer with symbolic TTL and port
-// @oracle added <=> not suppressed by any listed answer (per-answer predicate decided by the c10_suppressed_* harnesses); known_answer_count counts exactly the suppressed ones
+// @bound incoming query listing two known answers (SRV, symbolic TTL and port, fixed owner/class/target); one candidate SRV answer with symbolic TTL and port
+// @oracle added <=> not suppressed by either listed answer (per-answer predicate decided by the c10_suppressed_* harnesses); known_answer_count counts exactly the suppressed ones
 // @stubs clock(overlay)
 // @covers added, suppressed_by_first, suppressed_by_second
 #[kani::proof]
@@ -381,19 +383,13 @@ fn c10_add_answer() {
     set_clock(any_time());
     let mk = || DnsSrv::new("a.local.", CLASS_IN, kani::any(), 0, 0, kani::any(), "b.local.".to_string());
     let mine = mk();
-    let n: u8 = kani::any();
-    kani::assume(n <= 2);
     let mut msg = mk_incoming(Vec::new(), 0, 0);
     let k1 = mk();
     let k2 = mk();
-    let s1 = n >= 1 && mine.suppressed_by_answer(&k1);
-    let s2 = n >= 2 && mine.suppressed_by_answer(&k2);
-    if n >= 1 {
-        msg.answers.push(k1.boxed());
-    }
-    if n >= 2 {
-        msg.answers.push(k2.boxed());
-    }
+    let s1 = mine.suppressed_by_answer(&k1);
+    let s2 = mine.suppressed_by_answer(&k2);
+    msg.answers.push(k1.boxed());
+    msg.answers.push(k2.boxed());
     let mut out = DnsOutgoing::new(FLAGS_QR_RESPONSE | FLAGS_AA);
     let added = out.add_answer(&msg, mine);
     assert!(added == !(s1 || s2));
